@@ -559,6 +559,13 @@ func ruleC07(c *Ctx) []*report.Result {
 			}
 		}
 		r.Check(calls == 0 && len(fn.Blocks) == 1, "markers."+name+" / pure conversion", c.P.Pos(fn.Pos()), "conversion must consist of type conversions only")
+		for _, b := range fn.Blocks {
+			for _, ins := range b.Instrs {
+				if cv, ok := ins.(*ssa.Convert); ok && !bytePreservingConv(cv.X.Type(), cv.Type()) {
+					r.Fail("markers."+name+" / byte-preserving conversion", c.P.Pos(cv.Pos()), "the conversion goes through "+cv.Type().String()+": a detour through runes replaces every invalid UTF-8 byte by U+FFFD, so the string and []byte variants no longer agree", nil, "")
+				}
+			}
+		}
 	}
 	// marker byte variables fold to the same constants
 	for g, s := range mf.globalsStr {
